@@ -728,7 +728,7 @@ func configs() []config {
 	}
 	for i := range out {
 		out[i].Dense = dense
-		out[i].Reps = run.Pick(0, 24)
+		out[i].Reps = run.Pick(0, 36)
 		out[i].Seed = r.Int63()
 	}
 	return out
